@@ -245,3 +245,29 @@ def c15_6(ctx):
                 break
         if not ctx.findings and seen != {'str', 'seq'}:
             ctx.fail(f, f.node, '%s no longer distinguishes a dotted string from a sequence of keys' % name)
+
+
+@obligation('C15.7', 'TYPESTATE + TABLES (guards by truth table)', '_table_to_tree:table_to_tree',
+            'table_to_tree and tree_to_table are inverse on rows: a dictable or a list is taken row by row and ANYTHING ELSE IS ONE ROW, used as it is (a dict row whose leaf is a list must not be exploded into several rows); the table argument reaches that dispatch unconverted',
+            axioms=())
+def c15_7(ctx):
+    f = ctx.repo.fn('_table_to_tree:table_to_tree')
+    tab = f.params[2]
+    ctx.count(1, f.where())
+    for s in body_nodes(f.node):
+        if isinstance(s, (ast.Assign, ast.AugAssign)) and tab in [U(t) for t in (s.targets if isinstance(s, ast.Assign) else [s.target])]:
+            ctx.fail(f, s, 'the table is converted (`%s`) before its rows are taken: a single row given as a dict is no longer one row' % U(s)[:80], witness="table_to_tree({}, '%a/%b', dict(a='x', b=[1, 2]))")
+    d = [s for s in f.body if isinstance(s, ast.If) and 'isinstance(%s' % tab in U(s.test)]
+    ctx.count(1)
+    if not d:
+        ctx.fail(f, f.node, 'table_to_tree no longer distinguishes a table of rows from a single row')
+        return
+    ok, w = prop_equiv(d[0].test, 'isinstance(%s, (dictable, list))' % tab)
+    if not ok:
+        ctx.fail(f, d[0], 'rows are iterated when `%s`, expected exactly for a dictable or a list' % U(d[0].test), witness=w)
+    loops = [x for x in d[0].body if isinstance(x, ast.For) and N(x.iter) == tab]
+    if not loops or not any(call_name(c) == '_table_to_tree' and len(c.args) >= 3 and U(c.args[2]) == U(loops[0].target) for c in calls_in(loops[0])):
+        ctx.fail(f, d[0], 'the rows of a table are not inserted one by one with _table_to_tree(tree, pattern, row, ...)')
+    single = [c for x in else_of(d[0]) for c in calls_in(x, '_table_to_tree')]
+    if not single or len(single[0].args) < 3 or U(single[0].args[2]) != tab:
+        ctx.fail(f, d[0], 'a single row is not inserted as it is')
